@@ -6,6 +6,7 @@ result line per request.  Floats travel as decimal bit patterns.
 import Kodama.Model.Linkage
 import Kodama.DriverC19
 import Kodama.DriverAlloc
+import Kodama.DriverLoc
 namespace Kodama
 
 class Bits (α : Type) where
@@ -91,6 +92,7 @@ def step (ds : DriverState) (line : String) : DriverState × String :=
   | "dend" :: rest =>
     let (c, out) := stepC19 ds.c19 rest
     ({ ds with c19 := c }, out)
+  | "loc" :: rest => (ds, (Loc.stepLoc rest).getD "bad-op")
   | _ => (ds, "bad-op")
 
 partial def loop (h : IO.FS.Stream) (out : IO.FS.Stream) (ds : DriverState) : IO Unit := do
